@@ -13,14 +13,17 @@ VERIF = os.path.dirname(os.path.dirname(os.path.abspath(__file__)))
 SEEDED = os.path.join(VERIF, 'seeded')
 
 
+ROOT = os.environ.get('SEEDS_ROOT', '/tmp/seeds')
+
+
 def do_import():
-    for prop in sorted(os.listdir('/tmp/seeds')):
-        d = os.path.join('/tmp/seeds', prop)
+    for prop in sorted(os.listdir(ROOT)):
+        d = os.path.join(ROOT, prop)
         if not os.path.isdir(d):
             continue
         for sid in sorted(os.listdir(d)):
             sd = os.path.join(d, sid)
-            vf = '/tmp/seeds/verify_%s.json' % sid
+            vf = os.path.join(ROOT, 'verify_%s.json' % sid)
             if not os.path.isdir(sd) or not os.path.exists(os.path.join(sd, 'patch.diff')) or not os.path.exists(vf):
                 continue
             try:
@@ -42,7 +45,7 @@ def do_import():
                     old = {}
             for f in os.listdir(sd):
                 p = os.path.join(sd, f)
-                if os.path.isfile(p) and os.path.getsize(p) < 400000 and f not in ('demo', 'a.out', 'PROMPT.txt') and not f.endswith('.o'):
+                if os.path.isfile(p) and os.path.getsize(p) < 400000 and f not in ('demo', 'a.out', 'PROMPT.txt') and not f.endswith('.o') and not f.endswith('.a') and not (os.access(p, os.X_OK) and not f.endswith('.sh') and not f.endswith('.py')):
                     shutil.copy(p, os.path.join(dst, f))
             meta = {}
             mp = os.path.join(sd, 'meta.json')
@@ -51,10 +54,10 @@ def do_import():
                     meta = json.load(open(mp))
                 except Exception:
                     meta = {'raw_meta': open(mp).read()[:2000]}
-            out = dict(property=meta.get('property', prop), breaks=meta.get('summary'), needs_to_manifest=meta.get('needs'), files=meta.get('files'),
+            out = dict(property=meta.get('property', prop), breaks=meta.get('summary') or meta.get('breaks'), needs_to_manifest=meta.get('needs') or meta.get('needs_to_manifest'), files=meta.get('files'),
                        author='independent sub-agent given only the property text and a scratch worktree',
-                       author_ran=meta.get('ran'),
-                       confirmed_by_me=dict(worktree='%s (scratch git worktree of /repo HEAD, removed afterwards)' % ('/tmp/wt5_%s' % prop if sid[-1] in '89' else ('/tmp/wt4_%s' if prop in ('C01', 'C04', 'C06', 'C07', 'C08', 'C13', 'C14', 'C15', 'C16', 'C17') else '/tmp/wt3_%s') % prop if sid[-1] in '67' else '/tmp/wt2_%s' % prop if sid[-1] in '45' else '/tmp/wt_%s' % prop),
+                       author_ran=meta.get('ran') or meta.get('author_ran'),
+                       confirmed_by_me=dict(worktree='%s (scratch git worktree of /repo HEAD, removed afterwards)' % ('/tmp/wt6_%s' % prop if sid.endswith('_10') or sid.endswith('_11') else '/tmp/wt5_%s' % prop if sid[-1] in '89' else ('/tmp/wt4_%s' if prop in ('C01', 'C04', 'C06', 'C07', 'C08', 'C13', 'C14', 'C15', 'C16', 'C17') else '/tmp/wt3_%s') % prop if sid[-1] in '67' else '/tmp/wt2_%s' % prop if sid[-1] in '45' else '/tmp/wt_%s' % prop),
                                             ran=['git apply patch.diff', 'cmake -G Ninja + cmake --build', './randomx-tests', ver.get('demo_cmd'), 'git checkout -- . ; rebuild ; demo again'],
                                             patch_applies=ver.get('applies'), builds=ver.get('builds'), tests_passed=ver.get('tests_passed', 0) - 1, all_tests_pass=ver.get('tests_ok'),
                                             demo_exit_with_patch=ver.get('demo_with_patch_rc'), demo_exit_without_patch=ver.get('demo_without_patch_rc')),
